@@ -1,5 +1,6 @@
 CONSTANTS
   PinnedEnv = FALSE
+  Accumulate = FALSE
   PinnedVars = TRUE
 INIT Init
 NEXT Next
